@@ -13,18 +13,19 @@ structure Shape (s : St) : Prop where
 structure Keeps (s s' : St) : Prop where
   nq : s'.nq = s.nq
   nc : s'.nc = s.nc
+  expand : s'.expand = s.expand
   shape : Shape s → Shape s'
 
-theorem Keeps.refl (s : St) : Keeps s s := ⟨rfl, rfl, id⟩
+theorem Keeps.refl (s : St) : Keeps s s := ⟨rfl, rfl, rfl, id⟩
 
 theorem Keeps.trans {a b c : St} (h1 : Keeps a b) (h2 : Keeps b c) : Keeps a c :=
-  ⟨h2.nq.trans h1.nq, h2.nc.trans h1.nc, fun h => h2.shape (h1.shape h)⟩
+  ⟨h2.nq.trans h1.nq, h2.nc.trans h1.nc, h2.expand.trans h1.expand, fun h => h2.shape (h1.shape h)⟩
 
 theorem total_eq {s s' : St} (hq : s'.nq = s.nq) (hc : s'.nc = s.nc) : s'.total = s.total := by
   simp [St.total, hq, hc]
 
 theorem keeps_addColumn (s : St) : Keeps s (addColumn s) := by
-  refine ⟨rfl, rfl, fun h => ⟨?_, ?_⟩⟩
+  refine ⟨rfl, rfl, rfl, fun h => ⟨?_, ?_⟩⟩
   · intro col hc
     simp only [addColumn, List.mem_cons] at hc
     rcases hc with rfl | hc
@@ -34,8 +35,8 @@ theorem keeps_addColumn (s : St) : Keeps s (addColumn s) := by
 
 /-- Field updates that touch neither the register size, the matrix nor `in_use`. -/
 theorem keeps_of_fields {s s' : St} (hq : s'.nq = s.nq) (hc : s'.nc = s.nc) (hr : s'.rcols = s.rcols)
-    (hi : s'.inUse = s.inUse) : Keeps s s' :=
-  ⟨hq, hc, fun h => ⟨by rw [hr, total_eq hq hc]; exact h.cols, by rw [hi, total_eq hq hc]; exact h.iu⟩⟩
+    (hi : s'.inUse = s.inUse) (he : s'.expand = s.expand := by rfl) : Keeps s s' :=
+  ⟨hq, hc, he, fun h => ⟨by rw [hr, total_eq hq hc]; exact h.cols, by rw [hi, total_eq hq hc]; exact h.iu⟩⟩
 
 theorem keeps_reserve {q c s s'} (h : reserve q c s = .ok s') : Keeps s s' := by
   unfold reserve at h
@@ -85,7 +86,7 @@ theorem keeps_endRangeOp {s s'} (h : endRangeOp s = .ok s') : Keeps s s' := by
   · split at h
     · rename_i iu hm
       injection h with h; subst h
-      refine ⟨rfl, rfl, fun hs => ⟨hs.cols, ?_⟩⟩
+      refine ⟨rfl, rfl, rfl, fun hs => ⟨hs.cols, ?_⟩⟩
       show iu.length = _
       rw [markRange_length hm]; exact hs.iu
     · cases h
@@ -103,7 +104,7 @@ theorem keeps_setField {b y s s'} (h : setField b y s = .ok s') : Keeps s s' := 
   · rename_i col rest hr
     split at h
     · injection h with h; subst h
-      refine ⟨rfl, rfl, fun hs => ⟨?_, ?_⟩⟩
+      refine ⟨rfl, rfl, rfl, fun hs => ⟨?_, ?_⟩⟩
       · intro c hc
         simp only [List.mem_cons] at hc
         rcases hc with rfl | hc
